@@ -3,6 +3,7 @@ package checks
 // C12 No script, variable map or ledger state can crash the engine.
 
 import (
+	"context"
 	"encoding/json"
 	"fmt"
 	"math/big"
@@ -11,9 +12,13 @@ import (
 	"testing"
 	"time"
 
+	ledger "github.com/formancehq/ledger/internal"
 	"github.com/formancehq/ledger/internal/engine/command"
+	"github.com/formancehq/ledger/verifharness/enginesim"
 	"github.com/formancehq/ledger/verifharness/evid"
 	"github.com/formancehq/ledger/verifharness/numgen"
+	"github.com/formancehq/stack/libs/go-libs/logging"
+	"github.com/formancehq/stack/libs/go-libs/metadata"
 	"pgregory.net/rapid"
 )
 
@@ -295,10 +300,15 @@ func c12Judge(text string, env *numgen.Env, cc *command.Compiler) (out c12Outcom
 
 func TestC12(t *testing.T) {
 	c := evid.New("C12")
-	c.Rule = "three generators: (1) typed programs loosened at the AST level (any expression in any position, portions that do not add up, unbounded sources anywhere, save/print/fail, extra or duplicated variables with meta/balance origins) with loosened environments (missing / extraneous / malformed bindings and metadata, negative and huge balances); (2) token-level mutation of program text (delete, duplicate, swap, replace by hostile tokens incl. CR, NUL, multi-byte runes, huge numbers, comment markers; truncate); (3) splices of two programs. Oracle: no panic in compile / SetVarsFromJSON / ResolveResources / ResolveBalances / Run nor in rendering the returned error; termination within a watchdog; A-B-A: the same input gives the same outcome after an unrelated script ran through the shared compilation cache, and the unrelated script is unaffected. Non-trivial = the text passes the parser and compiler (the VM stages are reached); distinct by script text + environment."
+	c.Rule = "three generators: (1) typed programs loosened at the AST level (any expression in any position, portions that do not add up, unbounded sources anywhere, save/print/fail, extra or duplicated variables with meta/balance origins) with loosened environments (missing / extraneous / malformed bindings and metadata, negative and huge balances); (2) token-level mutation of program text (delete, duplicate, swap, replace by hostile tokens incl. CR, NUL, multi-byte runes, huge numbers, comment markers; truncate); (3) splices of two programs. Oracle: no panic in compile / SetVarsFromJSON / ResolveResources / ResolveBalances / Run nor in rendering the returned error; termination within a watchdog; A-B-A: the same input gives the same outcome after an unrelated script ran through the shared compilation cache, and the unrelated script is unaffected; a quarter of the inputs are also submitted to a long-lived Commander (model store with the history left by the earlier inputs): no panic, and a plain transaction still commits afterwards. Non-trivial = the text passes the parser and compiler (the VM stages are reached); distinct by script text + environment."
 	c.Assumptions = []string{"a watchdog expiry (20 s, re-run alone with 60 s) is a hang only if it repeats; a single expiry is counted as discarded"}
 	cfg := numgen.GenCfg{MaxDepth: 2, MaxStmts: 3}
 	cc := command.NewCompiler(64)
+	// one long-lived engine: every script runs against the ledger state the previous ones left
+	_, commander, stop := enginesim.Standalone()
+	defer stop()
+	ectx := logging.ContextWithLogger(context.Background(), nopLog{})
+	engineRuns := 0
 	runProp(t, c, func(rt *rapid.T) {
 		cs := numgen.GenTyped(rt, cfg)
 		mode := rapid.SampledFrom([]string{"typed", "loose-ast", "loose-ast", "loose-ast", "loose-env", "token-mut", "token-mut", "splice", "deep"}).Draw(rt, "mode")
@@ -343,6 +353,32 @@ func TestC12(t *testing.T) {
 			viaCache, fresh := c12Exec(text, env2, cc), c12Exec(text, env2, nil)
 			if viaCache.Class != "panic" && fresh.Class != "panic" && viaCache.key() != fresh.key() {
 				sig, msg = "C12/left-behind-for-other-bindings", fmt.Sprintf("after one execution, the same script with other bindings (%s) gives %s %s through the shared compilation cache but %s %s when compiled afresh", numgen.EnvString(env2), viaCache.Class, viaCache.Postings, fresh.Class, fresh.Postings)
+			}
+		}
+		if sig == "" && rapid.IntRange(0, 3).Draw(rt, "throughEngine") == 0 {
+			// the same input through Commander.CreateTransaction on a ledger with history
+			engineRuns++
+			vars := map[string]string{}
+			for k, v := range cs.Env.Vars {
+				vars[k] = v
+			}
+			var eerr error
+			pn := safely(func() {
+				_, eerr = commander.CreateTransaction(ectx, command.Parameters{}, ledger.RunScript{Script: ledger.Script{Plain: text, Vars: vars}, Metadata: metadata.Metadata(cs.Env.ReqMeta)})
+			})
+			if pn == nil && eerr != nil {
+				pn = safely(func() { _ = eerr.Error() })
+			}
+			if pn != nil {
+				sig, msg = "C12/engine-panic/"+panicClass(fmt.Sprint(pn)), fmt.Sprintf("Commander.CreateTransaction panicked: %v", pn)
+			} else {
+				var after error
+				pn2 := safely(func() {
+					_, after = commander.CreateTransaction(ectx, command.Parameters{}, ledger.RunScript{Script: ledger.Script{Plain: c12Script, Vars: map[string]string{}}})
+				})
+				if pn2 != nil || after != nil {
+					sig, msg = "C12/engine-poisoned", fmt.Sprintf("after the script, a plain transaction on the same ledger fails: %v %v", pn2, after)
+				}
 			}
 		}
 		labels := []string{"mode:" + mode, "class:" + out.Class}
